@@ -122,7 +122,7 @@ def prop_theorems(prop):
     body = re.sub(r"\(\*.*?\*\)", "", src, flags=re.S)
     thms = re.findall(r"Theorem\s+(\w+)\s*:(.*?)\.\s*Proof\.\s*exact\s+([\w.@ ()]+?)\.\s*Qed\.", body, flags=re.S)
     rest = re.sub(r"Theorem\s+\w+\s*:.*?\.\s*Proof\.\s*exact\s+[\w.@ ()]+?\.\s*Qed\.", "", body, flags=re.S)
-    rest = re.sub(r"From\s+[\w.]+\s+Require\s+(Import|Export)\s+[\w. ]+\.", "", rest)
+    rest = re.sub(r"From\s+[\w.]+\s+Require\s+(Import\s+|Export\s+)?[\w. ]+\.(?=\s)", "", rest)
     rest = re.sub(r"Require\s+(Import|Export)\s+[\w. ]+\.", "", rest)
     rest = re.sub(r"(Local\s+)?Open\s+Scope\s+\w+\.", "", rest)
     rest = re.sub(r"Import\s+[\w. ]+\.", "", rest)
